@@ -5,7 +5,8 @@ EXTENDS Retain, Shapes, Json
 CONSTANTS N, MaxKids
 Ids == 0..(N-1)
 KidSeqs == UNION {[1..k -> Ids] : k \in 0..MaxKids}
-RegOf(kids) == [p \in 1..N |-> WithId(ShapeBody(p-1, kids[p-1]), p-1)]
+Sel(t, ks) == t + (IF Len(ks) >= 1 THEN ks[1] ELSE 0) + (IF Len(ks) >= 2 THEN 2 * ks[2] ELSE 0)
+RegOf(kids) == [p \in 1..N |-> WithId(ShapeBody(p-1, kids[p-1], Sel(p-1, kids[p-1])), p-1)]
 Init == \E kids \in [Ids -> KidSeqs] : \E k \in SUBSET Ids : TInitWith(RegOf(kids), k)
 Spec == Init /\ [][RNext]_tvars /\ WF_tvars(RNext)
 Pairs(m) == SetToSeq({<<i, m[i]>> : i \in DOMAIN m})
